@@ -40,10 +40,10 @@ PROPERTY = "C42"
 LEVEL = "exploration"
 TECHNIQUE = "model-based history testing (bounded exhaustive gap/kind enumeration + Hypothesis histories) of real Switch/BinarySensor on a virtual-time loop vs reference timer/counter model"
 RULE = (
-    "case = (device kind: switch | binary sensor with reset_after | with context_timeout | with both, thresholds from {0.5,1,2.5} s, invert, ignore_internal_state, "
+    "case = (device kind: switch | binary sensor with reset_after | with context_timeout | with both, thresholds from {0.5,1,2.5} s, invert, ignore_internal_state, always_callback, "
     "address layout: single address | command + state + passive addresses (each telegram delivered on any of the device's addresses), "
     "injection mode: through cEMI+telegram queue or Device.process directly, history of [gap, settle, on/off write/response, settle] steps); "
-    "all histories of up to 3 (quick) / 4 (thorough) telegrams with gaps from {0, thr/2, thr-1/64, thr, thr+1/64, 2*thr} are enumerated per configuration, for the multi-address Switch up to 3 telegrams over {on@command, on@state, on@passive, off@state}, for the BinarySensor with reset_after up to 3 telegrams over {on, off} x {write, response}; longer ones (<= 10 telegrams) sampled; "
+    "all histories of up to 3 (quick) / 4 (thorough) telegrams with gaps from {0, thr/2, thr-1/64, thr, thr+1/64, 2*thr} are enumerated per configuration, for the multi-address Switch up to 3 telegrams over {on@command, on@state, on@passive, off@state}, for the BinarySensor with reset_after and (with and without always_callback) with context_timeout up to 3 telegrams over {on, off} x {write, response}; longer ones (<= 10 telegrams) sampled; "
     "non-trivial = at least two telegrams with some inter-arrival gap <= threshold + 1/64 s (a timer restart, a burst, a boundary or an exact tie is exercised); distinct by case"
 )
 LEVEL_TEXT = "Generated on/off telegram histories are run against the real devices in virtual time; state samples, device callbacks, counter values and the reset telegrams on a recording interface are compared with a reference timer/counter model written from the property statement."
@@ -53,7 +53,7 @@ ASSUMPTIONS = [
     "simultaneous events (a telegram arriving at the very instant a reset or context deadline expires) may be served in either order: the report of the expiring deadline is optional there, a Switch's state is not asserted until its next event, but every report that is made must carry the right time and counter",
     "an 'off' telegram before the deadline: the statement does not say whether the timer is cancelled; a redundant 'off' report at last-'on' + reset_after is tolerated (counted in notes), a missing one too",
     "BinarySensor with reset_after is driven with GroupValueWrite and GroupValueResponse telegrams ('on'/'off'), every 'on' it processes, write or response, restarts the reset timer; one situation is kept out of the judged domain: an 'on' GroupValueResponse that arrives after a timed reset (or at the very instant the timer expires) and before any GroupValueWrite / 'off' response - on the pinned tree the value last seen on the bus is still 'on' then, so the device deliberately treats the answer as unchanged (statement silent on state-sync answers); such histories are not generated / skipped on replay (counted in notes)",
-    "BinarySensor with context_timeout is driven with GroupValueWrite telegrams only (the device counts only writes when the state does not change); Switch is driven with writes and responses",
+    "BinarySensor with context_timeout: only GroupValueWrite telegrams count and (re)start the context window; a GroupValueResponse is a state report that neither increments the counter nor restarts / extends the window. Judged are responses that repeat the current state: with always_callback=False they cause no callback at all, with always_callback=True the unchanged tree calls the device callback right away (only the reported state is checked, in bucket C42:response-callback). Kept out of the judged domain (not generated / skipped, counted in notes) because the pinned tree treats them as events and the statement is silent: a response that changes the state or is the first telegram ever, one arriving at the very instant the context closes or the reset timer expires; Switch is driven with writes and responses",
     "mixed-state bursts and devices with both reset_after and context_timeout: only report timing (both reports at the close instant, second with counter 0), state samples and absence of exceptions are asserted",
     "every 'on' telegram the device processes restarts the reset timer, whatever address of the device (command, state, passive) it arrived on; the Switch's own reset telegram goes to its command address",
     "rate limit 0; sync_state off (no GroupValueRead traffic); device driven either through the cEMI receive path + telegram queue or by Device.process() directly (as xknx.devices.process and the unit tests do)",
@@ -89,28 +89,49 @@ def tail_ticks(case) -> int:
 
 
 def in_domain(case) -> bool:
-    """False for the one excluded situation: BinarySensor, an 'on' GroupValueResponse after a
-    timed reset (or exactly at the expiry) and before any write / 'off' response."""
-    if case["dev"] == "switch" or not case.get("R"):
+    """False for the situations kept out of the judged domain (see ASSUMPTIONS):
+
+    * BinarySensor with reset_after: an 'on' GroupValueResponse after a timed reset (or exactly
+      at the expiry) and before any write / 'off' response;
+    * BinarySensor with context_timeout: a GroupValueResponse that does not repeat the current
+      state (first telegram ever, state-changing answer), one arriving at the very instant the
+      reset timer expires or (counter sensor) the context closes.
+    """
+    dev = case["dev"]
+    if dev == "switch":
         return True
-    R = case["R"]
-    on = False
+    R = case.get("R")
+    T = case.get("T") if dev in ("bs_ctx", "bs_both") else None
+    if not R and not T:
+        return True
+    state = None
     deadline = None
     stale = False  # timed reset happened, value last seen on the bus still 'on'
+    writes_at = set()
     for t, is_on, is_write, _i in _events(case):
-        if on and deadline is not None and deadline <= t:
-            on, deadline, stale = False, None, True
+        if R and state and deadline is not None and deadline <= t:
+            if T and not is_write and deadline == t:
+                return False
+            state, deadline, stale = False, None, True
         if is_write:
             stale = False
-            on = is_on
-            deadline = t + R if is_on else None
-        elif is_on:
+            state = is_on
+            deadline = t + R if (R and is_on) else None
+            writes_at.add(t)
+            continue
+        if T:
+            if state is None or is_on != state:
+                return False
+            if dev == "bs_ctx" and (t - T) in writes_at:
+                return False  # a context may close at this very instant
+        if is_on:
             if stale:
                 return False
-            on, deadline = True, t + R
+            state = True
+            deadline = t + R if R else None
         else:
             stale = False
-            on, deadline = False, None
+            state, deadline = False, None
     return True
 
 
@@ -152,6 +173,7 @@ def execute(case):
                 sync_state=False,
                 invert=inv,
                 ignore_internal_state=bool(case.get("iis")),
+                always_callback=bool(case.get("acb")),
                 reset_after=R * TICK if kind in ("bs_reset", "bs_both") else None,
                 context_timeout=T * TICK if kind in ("bs_ctx", "bs_both") else None,
             )
@@ -271,6 +293,11 @@ def selftest(ctx) -> None:
     assert not in_domain(dict(base, steps=[[0, True, "on", True], [100, True, "ron", True]]))  # after the timed reset
     assert in_domain(dict(base, steps=[[0, True, "on", True], [100, True, "off", True], [1, True, "ron", True]]))  # a write in between
     assert in_domain(dict(base, dev="switch", steps=[[0, True, "on", True], [100, True, "ron", True]]))
+    cx = {"dev": "bs_ctx", "T": 64, "mode": "bus"}
+    assert in_domain(dict(cx, steps=[[0, True, "on", True], [32, True, "ron", True]]))  # state report repeating the state
+    assert not in_domain(dict(cx, steps=[[0, True, "on", True], [32, True, "roff", True]]))  # state-changing answer
+    assert not in_domain(dict(cx, steps=[[0, True, "ron", True]]))  # first telegram ever
+    assert not in_domain(dict(cx, steps=[[0, True, "on", True], [64, True, "ron", True]]))  # at the close instant
 
 
 # --------------------------------------------------------------------------- oracle
@@ -344,8 +371,15 @@ def judge(ctx, case, obs) -> None:
     # ---- counters ------------------------------------------------------------
     if has_ctx:
         weak = dev == "bs_both"
+        acb = bool(case.get("acb"))
+        # a GroupValueResponse is a state report: it neither counts nor extends the context window
+        wevents = [e for e in events if e[2]]
+        resp_at: dict = {}
+        for e in events:
+            if not e[2]:
+                resp_at.setdefault(e[0], []).append(e[1])
         if not weak:
-            bl = bursts(events, T)
+            bl = bursts(wevents, T)
             closes = {}
             for j, b in enumerate(bl):
                 C = b[-1][0] + T
@@ -356,6 +390,11 @@ def judge(ctx, case, obs) -> None:
             for t, state, counter in obs["cb"]:
                 by_time.setdefault(ticks(t), []).append((state, counter))
             for tt, entries in sorted(by_time.items(), key=lambda kv: float(kv[0])):
+                if tt not in closes and acb and tt in resp_at:
+                    # always_callback: a state report repeating the state calls the callback right away (not judged beyond its state)
+                    if len(entries) > len(resp_at[tt]) or any(e[0] not in resp_at[tt] for e in entries):
+                        ctx.fail("C42:response-callback", inp, f"callbacks at t={tt}/64 s {entries} for GroupValueResponse telegrams with states {resp_at[tt]}")
+                    continue
                 if tt not in closes:
                     ctx.fail("C42:counter-report-time", inp, f"device callback at t={tt}/64 s {entries}; contexts close at {sorted(closes)}")
                     continue
@@ -373,7 +412,7 @@ def judge(ctx, case, obs) -> None:
             # counter attribute at settled samples
             for idx, t, state, counter in obs["samples"]:
                 tt = ticks(t)
-                seen = [e for e in events if e[3] <= idx]
+                seen = [e for e in wevents if e[3] <= idx]
                 if not seen:
                     exp = 0
                 else:
@@ -395,6 +434,8 @@ def judge(ctx, case, obs) -> None:
             for t, state, counter in obs["cb"]:
                 by_time.setdefault(ticks(t), []).append((state, counter))
             for tt, entries in by_time.items():
+                if acb:
+                    break  # always_callback: state reports and resets that repeat the state call back singly; not judged
                 if len(entries) % 2 or any(e[1] != 0 for e in entries[1::2]):
                     ctx.fail("C42:counter-report-shape:bs_both", inp, f"callbacks at t={tt}/64 s: {entries}")
 
@@ -406,6 +447,10 @@ def classify(case):
     cls = [case["dev"], case["mode"]]
     if case["dev"] != "switch" and any(stp[2] in ("ron", "roff") for stp in case["steps"]):
         cls.append("bs-response-telegram")
+        if case["dev"] in ("bs_ctx", "bs_both"):
+            cls.append("ctx-sensor-response")
+    if case.get("acb"):
+        cls.append("always_callback")
     if case.get("addrs") == "multi":
         cls.append("multi-address")
         if any(len(stp) > 4 and stp[4] for stp in case["steps"]):
@@ -420,7 +465,7 @@ def classify(case):
             if g <= th + 1:
                 nontrivial = True
     if case.get("T") and case["dev"] == "bs_ctx":
-        for b in bursts(events, case["T"]):
+        for b in bursts([e for e in events if e[2]], case["T"]):
             if len(b) >= 2:
                 cls.append("pure-burst>=2" if len({e[1] for e in b}) == 1 else "mixed-burst")
     return nontrivial, sorted(set(cls))
@@ -428,7 +473,7 @@ def classify(case):
 
 def check_case(ctx, case) -> None:
     if not in_domain(case):
-        ctx.notes["skipped_response_after_timed_reset"] = ctx.notes.get("skipped_response_after_timed_reset", 0) + 1
+        ctx.notes["skipped_out_of_domain_response"] = ctx.notes.get("skipped_out_of_domain_response", 0) + 1
         return
     try:
         obs = execute(case)
@@ -464,9 +509,11 @@ def _enum_shard(ctx, dev, mode, Lmax, addrs="single") -> None:
     cfg = _config(dev, th, 32, False, False, mode)
     gaps = _gapset(th)
     kinds = [("on", 0), ("off", 0)]
-    if addrs == "resp":
-        # writes and responses mixed (BinarySensor with reset_after)
+    if addrs in ("resp", "resp_acb"):
+        # writes and responses mixed (BinarySensor); resp_acb: with always_callback=True
         kinds = [("on", 0), ("off", 0), ("ron", 0), ("roff", 0)]
+        if addrs == "resp_acb":
+            cfg["acb"] = True
     if addrs == "multi":
         # 'on' on the command / state / a passive address, 'off' on the state address
         cfg["addrs"] = "multi"
@@ -480,7 +527,7 @@ def _enum_shard(ctx, dev, mode, Lmax, addrs="single") -> None:
             for ks in itertools.product(kinds, repeat=L):
                 case = dict(cfg, steps=[[g, s, k, s, ai] for g, (k, ai) in zip((0, *gs), ks)])
                 if not in_domain(case):
-                    ctx.notes["skipped_response_after_timed_reset"] = ctx.notes.get("skipped_response_after_timed_reset", 0) + 1
+                    ctx.notes["skipped_out_of_domain_response"] = ctx.notes.get("skipped_out_of_domain_response", 0) + 1
                     continue
                 check_case(ctx, case)
                 n += 1
@@ -502,6 +549,11 @@ def cases(draw):
     kinds = ["on", "on", "off", "ron", "ron", "roff"] if dev in ("switch", "bs_reset") else ["on", "off"]
     if dev == "bs_ctx" and draw(st.booleans()):
         kinds = [draw(st.sampled_from(["on", "off"]))]  # pure runs
+    if dev in ("bs_ctx", "bs_both") and draw(st.booleans()):
+        # state reports in between (only those repeating the current state stay in the judged domain)
+        kinds = kinds + ["r" + k for k in kinds]
+    if dev != "switch":
+        cfg["acb"] = draw(st.booleans())
     n = draw(st.integers(1, 10))
     steps = []
     for i in range(n):
@@ -542,6 +594,8 @@ def run(ctx) -> None:
     jobs = [(dev, mode, Lmax) for dev in DEVS for mode in ("bus", "direct")]
     jobs += [("switch", mode, 3, "multi") for mode in ("bus", "direct")]
     jobs += [("bs_reset", mode, 3, "resp") for mode in ("bus", "direct")]
+    jobs += [("bs_ctx", mode, 3, a) for mode in ("bus", "direct") for a in ("resp", "resp_acb")]
+    jobs += [("bs_both", "bus", 3, "resp_acb"), ("bs_reset", "bus", 3, "resp_acb")]
     parallel(ctx, _enum_shard, jobs, procs=_procs())
     parallel(ctx, _hyp_shard, [(ctx.n(300, 4000),)] * 8, procs=_procs())
     ctx.notes["exhaustive_up_to_telegrams"] = Lmax
